@@ -20,6 +20,29 @@ CHECKS = {
         "inert stubs), pickletools.genops for opcode alignment.",
         "DESIGN.md 3/C09",
     ),
+    "C03": (
+        "bounded-exhaustive + Hypothesis-generated opcode programs; event-log inclusion "
+        "differential (reference VM over stubs vs executed decompile)",
+        "Generated-input search over VM-accepted opcode programs (exhaustive inside a length "
+        "bound over the call-making/disposal focus alphabet, random beyond, natural pickles of "
+        "instances): every import and call the CPython unpickler performs on inert stubs must "
+        "appear at least as often when fickling's decompile runs on the same stubs; non-runnable "
+        "decompiles are violations, refusals are allowed.",
+        "Trusted: pickle._Unpickler as reference VM; stub canonicalisation (vlib/refvm.py); two "
+        "open known findings excluded by construction (KF-C03-1, KF-C03-2).",
+        "DESIGN.md 3/C03",
+    ),
+    "C05": (
+        "Hypothesis recursive values x protocols 0-5 round-trip through exec(decompile); typed "
+        "program differential on canonical value + call multiset vs reference VM",
+        "Generated-input search: plain data must decompile and re-execute to a type-exact equal "
+        "value at every protocol whose encoding uses implemented opcodes; programs and instance "
+        "pickles must rebuild the same canonical value (identity-aware for call results) with the "
+        "same multiset of calls as CPython's unpickler over inert stubs.",
+        "Trusted: pickle.loads as arbiter for plain data; pickle._Unpickler over stubs for "
+        "programs; NaN and cyclic values outside the domain.",
+        "DESIGN.md 3/C05",
+    ),
 }
 
 PENDING = {}
